@@ -22,7 +22,60 @@ func init() {
 	expectedProbes["C19"] = []string{"c19.waited", "c19.cancel_while_queued", "c19.lock_false", "c19.bad_unlock_panicked", "c19.two_keys_overlap"}
 }
 
+// c19ManyKeys: "independent keys never block each other" for a large number of keys held at
+// once: one caller takes a few hundred thousand distinct keys and releases them again. However the
+// map identifies keys internally, none of these acquisitions may wait.
+func c19ManyKeys(r *Run) {
+	lm := gcsutil.NewTransientLockMap()
+	n := 300000
+	if r.Tier == "thorough" {
+		n = 1200000
+	}
+	key := func(i int) string { return fmt.Sprintf("bucket/object-%07d", i) }
+	ctx := context.Background()
+	for i := 0; i < n; i++ {
+		ok := false
+		func() {
+			defer func() {
+				if x := recover(); x != nil {
+					if _, ll := x.(leakedLock); ll {
+						r.Fail("blocked-on-free-key", "", "Lock(%q) would wait although this caller only holds %d other, distinct keys", key(i), i)
+						return
+					}
+					panic(x)
+				}
+			}()
+			ok = lm.Lock(ctx, key(i))
+		}()
+		if r.Failed() {
+			return
+		}
+		if !ok {
+			r.Fail("false-without-cancel", "", "Lock(%q) returned false with a background context", key(i))
+			return
+		}
+	}
+	if got := lm.VerifLen(); got != n {
+		r.Fail("leak", "", "%d distinct keys are held but the map has %d entries", n, got)
+		return
+	}
+	for i := 0; i < n; i++ {
+		lm.Unlock(key(i))
+	}
+	if got := lm.VerifLen(); got != 0 {
+		r.Fail("leak", "", "lock map retains %d entries after all %d keys were released", got, n)
+		return
+	}
+	r.Probe("c19.many_distinct_keys_held")
+	r.Mix("many-keys")
+	r.Sample = map[string]interface{}{"mode": "many-keys", "keys": n}
+}
+
 func runC19(r *Run) {
+	if r.Index == 5 {
+		c19ManyKeys(r)
+		return
+	}
 	cfg := r.T.S("cfg")
 	nTasks := 2 + cfg.Intn(3)
 	nKeys := 1 + cfg.Intn(2)
